@@ -49,6 +49,7 @@ def run(ctx, rep):
     rep.guarded("R07-LEAFARGS", lambda: r_leafargs(sh, rep))
     rep.rule("R07-LITEQ", "literal patterns are told apart exactly: equality on exhaustive::Literal / Pattern is structural (derived) or, if written by hand, free of lossy conversions", floor=2)
     rep.guarded("R07-LITEQ", lambda: r_liteq(sh, rep))
+    rep.guarded("R07-LITEQ", lambda: r_litcanon(sh, rep))
 
 
 def r_called(sh, rep):
@@ -209,6 +210,29 @@ def r_ctors(sh, rep):
 # ---------------------------------------------------------------------------------------------------------
 EXH = "crates/aiken-lang/src/tipo/exhaustive.rs"
 LOSSY = {"parse", "to_i128", "to_u128", "to_i64", "to_u64", "to_usize", "to_isize", "try_into", "try_from", "to_f64", "len", "first", "last", "get", "hash", "to_lowercase", "to_uppercase", "trim", "chars"}
+
+
+def r_litcanon(sh, rep):
+    """Literal equality is exact (R07-LITEQ) on whatever spelling reaches it. The parser keeps the sign and the digits as
+    written (`-0`, `0_001`), so the two matching algorithms must first bring an Int literal into one canonical spelling —
+    through the same function, or the checker and the generated code disagree on which clauses are the same."""
+    sites = []
+    for rel, ctor in ((DT, "CaseTest::Int"), (EXH, "Literal::Int")):
+        for q, f in all_fns(sh.file(rel)):
+            if "body" not in f:
+                continue
+            for a in walk(f["body"]):
+                if a.get("k") == "Arm" and any((x.get("p") or "").endswith("Pattern::Int") for x in walk(a["pat"]) if x.get("k") in ("PStruct", "PTupleStruct")):
+                    for c in walk(a["body"]):
+                        if c.get("k") == "Call" and call_name(c) == ctor and c["args"]:
+                            sites.append((rel, q, c))
+    fns = set()
+    for rel, q, c in sites:
+        a0 = c["args"][0]
+        fn = last(call_name(a0) or "") if a0.get("k") == "Call" else None
+        fns.add(fn)
+        rep.check(fn is not None, "R07-LITEQ", "%s#int-literal-canonicalised" % q.split("::")[-1], sh.loc(rel, c), "%s takes an Int literal pattern as written (`%s`): `-0` and `0` (or `1` and `0_001`) are then different literals for this algorithm, and a `when` runs a later clause than the first that matches" % (q, sh.nsrc(rel, a0)), sample={"arg": sh.nsrc(rel, a0)})
+    rep.check(len(sites) >= 2 and len(fns - {None}) <= 1, "R07-LITEQ", "int-literal#one-canonicalisation-for-both-algorithms", DT, "the exhaustiveness checker and the decision tree canonicalise Int literals with different functions (%s)" % sorted(x for x in fns if x), nontrivial=False)
 
 
 def r_liteq(sh, rep):
